@@ -106,6 +106,7 @@ def nontrivial(case):
 
 
 def tally(rep, case, impl_res, ans):
+    rep.count('probe_dir_names:%s/%s' % (case.get('dirnames', 'idx'), case.get('dirkind', 'path')))
     rep.count('probes:%d' % len(case['probes']))
     t = [x for p in case['probes'] for x in p['spike_samples']]
     if len(t) != len(set(t)):
